@@ -127,7 +127,8 @@ class Frame:
 
 class Actor:
     __slots__ = ("aid", "stack", "task", "ended", "end_exc", "parent", "harness_cancel", "spawned_in", "gate_forced",
-                 "via", "held", "started", "cancel_landed", "gate_forced_seq")
+                 "via", "held", "started", "cancel_landed", "gate_forced_seq", "pending_cancel", "caught_cancels",
+                 "exempt_cancel")
 
     def __init__(self, aid, stack, parent=None):
         self.aid = aid
@@ -144,6 +145,9 @@ class Actor:
         self.started = False
         self.cancel_landed = None
         self.gate_forced_seq = None
+        self.pending_cancel = False
+        self.caught_cancels = 0
+        self.exempt_cancel = False
 
 
 def _gate_forced_before(self, seq):
@@ -175,7 +179,7 @@ class DispDouble:
         if self.spec["enter_pause"]:
             await sim.pause(f"de{self.uid}")
         if self.spec["enter_raise"]:
-            self.enter_exc = Injected(("enter", self.uid))
+            self.enter_exc = (InjectedBase if self.spec["enter_raise"] == 2 else Injected)(("enter", self.uid))
             sim.stats["fault:disposable_enter_raise"] += 1
             raise self.enter_exc
         self.enter_done = True
@@ -197,7 +201,15 @@ class DispDouble:
             sim.stats["fault:disposable_exit_raise"] += 1
             raise self.exit_exc
         sim.event("d-exited", self.uid)
-        return None
+        # a disposable may answer True like a suppressing context manager: the scope must not let that swallow anything
+        return True if self.spec.get("exit_true") else None
+
+
+def only_injected(exc) -> bool:
+    """An injected exception, or a group whose leaves are all injected exceptions (no CancelledError wrapped in it)."""
+    if isinstance(exc, BaseExceptionGroup):
+        return all(only_injected(sub) for sub in exc.exceptions)
+    return isinstance(exc, (Injected, InjectedBase))
 
 
 def reachable(target, root, seen=None) -> bool:
@@ -229,7 +241,7 @@ BASE_CFG = dict(
     probe_each=False, pause_between=False, restore=False, owner_probe=False, top_scope=False,
     cancel_mode=None, max_actors=4, lookup=False, join=False, cancel_rules=False, disp_rules=False,
     completion_rules=False, metrics_rules=False, log_rules=False, late_children=0, raise_base=1,
-    try_swallow=1,
+    try_swallow=1, swallow_cancel=0, tick=0,
 )
 
 
@@ -248,17 +260,20 @@ def cfg_for(pid: str, profile: str) -> dict:
             c.update(cancel_mode="sweep" if profile != "cancel" else "random")
     elif pid == "C03":
         w.update(scope=4, updated=3, spawn=3, pause=1)
-        c.update(probe_each=True, pause_between=True, lookup=True, spawn_via_loop=1, top_scope=True, max_blocks=12)
+        c.update(probe_each=True, pause_between=True, lookup=True, spawn_via_loop=1, top_scope=True, max_blocks=12,
+                 disposables=2, disp_pause=2)
     elif pid == "C06":
         w.update(scope=3, updated=1, spawn=5, pause=2, raise_=1, try_=1)
-        c.update(join=True, spawn_fail=1, spawn_gate=(2, 2, 2), top_scope="mostly", p_async=4)
+        c.update(join=True, spawn_fail=1, spawn_gate=(2, 2, 2), top_scope="mostly", p_async=4, disposables=1, disp_pause=2)
         if profile in ("sweep", "cancel"):
             c.update(cancel_mode="sweep" if profile == "sweep" else "random")
     elif pid == "C07":
         w.update(scope=4, updated=1, spawn=3, pause=3, cancel_self=1, check_cancel=2, try_=2)
         c.update(cancel_rules=True, join=False, spawn_gate=(1, 2, 2), top_scope=True, p_async=4, disposables=1,
-                 disp_pause=2, try_swallow=0,
-                 cancel_mode="sweep" if profile == "sweep" else ("random" if profile == "cancel" else None))
+                 disp_pause=2, try_swallow=0, swallow_cancel=1,
+                 cancel_mode="sweep" if profile in ("sweep", "disp-sweep") else ("random" if profile == "cancel" else None))
+        if profile == "disp-sweep":
+            c.update(disposables=3, disp_faults=2, p_async=7)
     elif pid == "C08":
         w.update(scope=5, pause=2, raise_=2, try_=2, probe=1)
         c.update(disposables=4, disp_faults=2 if profile != "plain" else 0, disp_pause=2, disp_rules=True, p_async=9,
@@ -266,14 +281,15 @@ def cfg_for(pid: str, profile: str) -> dict:
     elif pid == "C09":
         w.update(scope=6, spawn=3, pause=3, updated=1)
         c.update(completion=3, completion_rules=True, spawn_via_loop=2, late_children=1, spawn_gate=(2, 2, 0),
-                 max_blocks=6, top_scope=True)
+                 max_blocks=6, top_scope=True, tick=1)
         if profile == "faults":
             # every exit path: body raise, failing children, failing disposables, one external cancel
             w.update(raise_=2, try_=2)
             c.update(spawn_fail=1, disposables=2, disp_faults=1, cancel_mode="random", max_blocks=8)
     elif pid == "C10":
         w.update(scope=4, spawn=2, record=6, pause=2, updated=1)
-        c.update(completion=3, metrics_rules=True, spawn_via_loop=1, spawn_gate=(2, 1, 0), max_blocks=6)
+        c.update(completion=3, metrics_rules=True, spawn_via_loop=1, spawn_gate=(2, 1, 0), max_blocks=6, tick=1,
+                 disposables=2, disp_pause=2, p_async=6)
     elif pid == "C19":
         w.update(scope=5, log=6, spawn=2, pause=1, updated=1)
         c.update(logger=1, trace=1, names=len(NAMES), log_rules=True, completion=1, spawn_gate=(2, 1, 0),
@@ -322,8 +338,9 @@ class Gen:
                  "exit_pause": int(s.chance(c["disp_pause"], 4, "xpause")),
                  "enter_raise": 0, "exit_raise": 0}
             if c["disp_faults"]:
-                d["enter_raise"] = int(s.chance(1, 6, "eraise"))
+                d["enter_raise"] = int(s.chance(1, 6, "eraise")) * (1 + s.weighted((3, 1), "eraise-kind"))
                 d["exit_raise"] = int(s.chance(c["disp_faults"], 6, "xraise"))
+                d["exit_true"] = int(s.chance(1, 6, "xtrue"))
             out.append(d)
         return out
 
@@ -404,7 +421,8 @@ class Gen:
                     # cleanup code that spawns (runs while the enclosing group may already be shutting down)
                     self.actors += 1
                     cleanup = [["spawn", 0, {"gate": s.weighted(c["spawn_gate"], "gate"), "fail": 0}, [["pause"]]]]
-                ops.append(["try", body, int(c["try_swallow"] and s.draw(2, "swallow")), cleanup])
+                catches = int(bool(c["swallow_cancel"]) and s.chance(1, 3, "catches-cancel"))
+                ops.append(["try", body, int(c["try_swallow"] and s.draw(2, "swallow")), cleanup, catches])
         return ops
 
     def program(self):
@@ -861,11 +879,16 @@ class Engine:
                 if child.task is not None and not child.task.done():
                     sim.fail("outlived", f"scope #{f.uid} ({'failed' if left is not None else 'returned'}) was left while task of "
                              f"actor {child.aid} spawned into it is still pending", body="raised" if left is not None else "returned")
-            if f.body_exc is not None:
+            cancelled_in_exit = (actor.cancel_landed is not None and f.body_end_seq is not None
+                                 and actor.cancel_landed > f.body_end_seq)
+            if f.body_exc is not None or cancelled_in_exit:
+                after = max(f.body_end_seq or 0, actor.cancel_landed or 0) if f.body_exc is None else f.body_end_seq
                 for child in f.tasks:
-                    if child.held and child.gate_forced and child.gate_forced_seq > f.body_end_seq:
-                        sim.fail("awaited-instead-of-cancelled", f"scope #{f.uid} body failed with {describe_exc(f.body_exc)} but blocked "
-                                 f"child actor {child.aid} was awaited until its gate had to be forced")
+                    if child.held and child.gate_forced and child.gate_forced_seq > after:
+                        sim.fail("awaited-instead-of-cancelled", f"scope #{f.uid} "
+                                 f"{'body failed with ' + describe_exc(f.body_exc) if f.body_exc is not None else 'was cancelled while being left'}"
+                                 f" but blocked child actor {child.aid} was awaited until its gate had to be forced",
+                                 how="body-failed" if f.body_exc is not None else "cancelled-in-exit")
         # ---- C08: exit errors must reach the caller -------------------------------------------------
         cancel_hit = (actor.cancel_landed is not None and f.registered_seq < actor.cancel_landed
                       and (not f.body_started or (f.body_end_seq is not None and actor.cancel_landed > f.body_end_seq)))
@@ -1037,6 +1060,11 @@ class Engine:
                 sim.event("spawn-refused", child.aid, str(exc)[:40])
                 child.ended = True
                 return
+            except BaseException as exc:  # noqa: BLE001
+                if self.cfg["join"]:
+                    sim.fail("spawn-raised", f"ctx.spawn raised {exc!r} ({'outside any async scope' if scope is None else 'inside scope #%d' % scope.uid})",
+                             where="outside" if scope is None else "inside")
+                raise
             if scope is not None:
                 scope.tasks.append(child)
                 child.spawned_in = scope
@@ -1224,6 +1252,7 @@ class Engine:
         from haiway import ctx
         sim = self.sim
         actor.harness_cancel = True
+        actor.pending_cancel = True
         sim.stats["fault:ctx_cancel"] += 1
         sim.event("ctx-cancel", actor.aid)
         ctx.cancel()
@@ -1254,7 +1283,8 @@ class Engine:
 
     async def op_try(self, actor, op):
         sim = self.sim
-        _k, body, swallow, cleanup = op
+        _k, body, swallow, cleanup = op[:4]
+        catches = op[4] if len(op) > 4 else 0
         try:
             await self.run_ops(actor, body)
         except SimStop:
@@ -1274,6 +1304,14 @@ class Engine:
                 else:
                     sim.fail("check-cancellation-silent", f"actor {actor.aid} was cancelled through asyncio and caught "
                              f"CancelledError, but ctx.check_cancellation() did not raise", how="task.cancel")
+            if catches and actor.pending_cancel:
+                # user code catches the cancellation (without uncancel()): this request is consumed, a later one is not
+                actor.pending_cancel = False
+                actor.caught_cancels += 1
+                if actor.cancel_landed is not None:
+                    actor.exempt_cancel = True  # the external request was consumed by user code
+                sim.stats["cancellation_caught_by_user_code"] += 1
+                return
             raise
         except BaseException as exc:  # noqa: BLE001
             sim.event("try-caught", actor.aid, type(exc).__name__)
@@ -1317,6 +1355,9 @@ class Engine:
             await asyncio.wait([t])
 
         self.victim_choice = sim.source.draw(4, "victim") if cfg["cancel_mode"] else 0
+        if cfg["tick"]:
+            # swarm knob: in half of the runs every external completion advances the virtual clock by one grid step
+            sim.tick = sim.source.draw(2, "tick")
         return sim.run(main)
 
     def inject_cancel(self):
@@ -1333,6 +1374,7 @@ class Engine:
             return
         sim.nontrivial = True
         victim.harness_cancel = True
+        victim.pending_cancel = True
         victim.cancel_landed = sim.seq
         # classify the landing point from the victim's open scopes
         open_scopes = [f for f in self.frames if not f.exit_returned and self.actor_of(f) is victim]
@@ -1361,6 +1403,7 @@ class Engine:
             if inner_async.body_ended and inner_async.body_exc is not None:
                 aborting = True
         self.cancel_info = {"victim": victim, "where": where, "aborting": aborting, "scope": inner_async,
+                            "open_scopes": open_scopes,
                             "pending_children": [c for f in open_scopes for c in f.tasks if c.task is not None and not c.task.done()]}
 
     def actor_of(self, f):
@@ -1439,17 +1482,39 @@ class Engine:
     def finish_cancel(self):
         sim = self.sim
         info = self.cancel_info
+        # every cancellation request that user code did not catch must end the task cancelled (ctx.cancel included)
+        for a in self.actors:
+            if a.pending_cancel and a.task is not None and a.task.done() and not a.task.cancelled() and a.started \
+                    and not (info is not None and info["victim"] is a):
+                if any(f.child_failed for f in self.frames if f.actor is a):
+                    continue  # TaskGroup was aborting at some point: CPython may have dropped the request (ground rule 5)
+                if only_injected(a.end_exc):
+                    sim.stats["exempt:cancellation_replaced_by_user_cleanup_error"] += 1
+                    continue  # user-supplied code (a double) raised while the cancellation was propagating
+                sim.fail_post("cancel-swallowed", f"actor {a.aid} asked for its own cancellation (ctx.cancel, {a.caught_cancels} earlier "
+                              f"request(s) caught by user code) and never caught this one, but its task ended "
+                              f"{'with ' + repr(a.task.exception()) if a.task.exception() else 'normally'}",
+                              where="ctx.cancel-after-caught" if a.caught_cancels else "ctx.cancel")
+                return
         if info is None:
             return
         victim = info["victim"]
+        if not info["aborting"] and any(f.child_failed for f in info["open_scopes"]):
+            # a child failed before the victim could process the cancel: the group was aborting by then
+            info["aborting"] = True
         if info["aborting"]:
             sim.stats["exempt:cancel_while_group_aborting"] += 1
-        elif not victim.task.cancelled():
+            victim.exempt_cancel = True
+        elif not victim.task.cancelled() and victim.pending_cancel and only_injected(victim.end_exc):
+            sim.stats["exempt:cancellation_replaced_by_user_cleanup_error"] += 1
+        elif not victim.task.cancelled() and victim.pending_cancel:
             sim.fail_post("cancel-swallowed", f"actor {victim.aid} was cancelled ({info['where']}) and never caught it, but its task "
                           f"ended {'with ' + repr(victim.task.exception()) if victim.task.exception() else 'normally'}",
                           where=info["where"])
             return
         for c in info["pending_children"]:
+            if not victim.task.cancelled() or victim.exempt_cancel:
+                break  # user code caught the cancellation (or it was replaced): the scope went on normally
             forced_after = c.gate_forced and c.gate_forced_seq > victim.cancel_landed
             if c.held and (forced_after or not c.task.cancelled()) and not c.gate_forced_before(victim.cancel_landed) \
                     and not info["aborting"]:
@@ -1663,7 +1728,7 @@ def _mk(pid, level, tiers, rule, sweeps=()):
 
 
 PROPS = {
-    "C01": _mk("C01", "exploration", {"quick": [("plain", 240000)], "thorough": [("plain", 4800000)]},
+    "C01": _mk("C01", "exploration", {"quick": [("plain", 180000)], "thorough": [("plain", 3600000)]},
                "one case = generated tree of nested ctx.scope (sync/async, with state-yielding disposables) / ctx.updated blocks over a "
                "family of 5 state types (defaultable, required attribute, subclass, two specialisations of a generic) with probes "
                "(ctx.state with and without explicit default, in both orders) before/inside/between/after + completion order of "
@@ -1685,11 +1750,12 @@ PROPS = {
                "`async with` returns every attributed task must be done; deadlock detector; non-trivial = at least two actors",
                sweeps=("sweep",)),
     "C07": _mk("C07", "fault_enumeration",
-               {"quick": [("plain", 90000), ("cancel", 60000), ("sweep", 4200)],
-                "thorough": [("plain", 1800000), ("cancel", 1200000), ("sweep", 84000)]},
+               {"quick": [("plain", 90000), ("cancel", 60000), ("sweep", 3600), ("disp-sweep", 1200)],
+                "thorough": [("plain", 1800000), ("cancel", 1200000), ("sweep", 72000), ("disp-sweep", 24000)]},
                "C06-style programs (no harness code swallows CancelledError); one external cancel of a drawn actor at a random loop "
                "iteration or swept over EVERY iteration of the fault-free twin, ctx.cancel()/check_cancellation ops; landing points "
-               "are classified; non-trivial = a cancel was delivered", sweeps=("sweep",)),
+               "are classified; profile 'disp-sweep' adds failing/suspending disposables; user code may catch a cancellation "
+               "(without uncancel) and ask again; non-trivial = a cancel was delivered", sweeps=("sweep", "disp-sweep")),
     "C08": _mk("C08", "fault_enumeration",
                {"quick": [("plain", 72000), ("faults", 90000), ("sweep", 3000)],
                 "thorough": [("plain", 1440000), ("faults", 1800000), ("sweep", 60000)]},
